@@ -492,8 +492,8 @@ fn step_vs_isa(class: Class, real_traps: bool) {
         _ => assert!(fpc == rf.fault_pc, "C08.fault: the error is reported with the faulting instruction's address"),
     }
     // ---- instruction counter
+    // (whether a halted, failed or interrupt-entry step counts is the simulator's own choice: not constrained)
     if rf.completed { assert!(post.icount == pre.icount.wrapping_add(1), "C13.count: a completed instruction counts once"); }
-    else if !rf.entered { assert!(post.icount == pre.icount, "C13.count: a halted or failed step does not count"); }
     // ---- memory and I/O accesses: exactly the prescribed set (address, direction, privilege, data)
     let t = tab();
     assert!(!t.extra_read, "C08.access: every read made is one the ISA prescribes (C09: none outside user space in user mode)");
@@ -890,7 +890,8 @@ fn real_vs_virtual() {
     let ra = a.step_in();
     let ea = effects(tab());
     let is_irq = taken(pend, sc.psr);
-    let halted_or_failed = ra.is_err() || (scalars(&a).icount == sc.icount && !is_irq);
+    // HALT and exceptions are recognised through the reference (what counts as an executed instruction is not constrained)
+    let halted_or_failed = ra.is_err() || !matches!(rf.out, isa::Outcome::Done);
     tab().rewind();
     let mut b = sim_from(sc, flags(false, true, ign));
     b.prefetch = false;
@@ -1156,6 +1157,10 @@ loop_harness!(step_over_3, Runner::Over, 3, false, 9);
 loop_harness!(step_out_3, Runner::Out, 3, false, 9);
 loop_harness!(run_3, Runner::Run, 3, false, 9);
 loop_harness!(run_with_limit_3_bp, Runner::Limit, 3, true, 9);
+// thorough tier: one more iteration
+loop_harness!(run_with_limit_4, Runner::Limit, 4, false, 9);
+loop_harness!(step_over_4, Runner::Over, 4, false, 9);
+loop_harness!(step_out_4, Runner::Out, 4, false, 9);
 
 // =================================================================================================
 // C32: mapping internal registers.
